@@ -347,6 +347,8 @@ func (fr *Frame) ghostStmts(key string, ordinal int, when string, st *State, rea
 		return
 	}
 	short := vc.e.shortName(key)
+	var here []*GhostStmt
+	cut := false
 	for _, gs := range vc.fc.Ghost {
 		if gs.When != when || gs.CallOrdinal != ordinal {
 			continue
@@ -354,16 +356,46 @@ func (fr *Frame) ghostStmts(key string, ordinal int, when string, st *State, rea
 		if !(gs.Callee == shortFn(short) || gs.Callee == short) {
 			continue
 		}
-		if gs.Assert != nil {
-			fr.ghostAssert(gs, st, reach)
-			continue
+		here = append(here, gs)
+		cut = cut || gs.Cut
+	}
+	var facts []*Term
+	var labels []string
+	var keep []string
+	soft := false
+	for _, gs := range here {
+		switch {
+		case gs.Cut:
+			keep = gs.Keep
+			soft = gs.Soft
+		case gs.Assert != nil:
+			if t := fr.ghostAssert(gs, st, reach, !cut); t != nil {
+				facts = append(facts, t)
+				labels = append(labels, clauseLabel(gs.Assert, 0))
+			}
+		default:
+			fr.ghostAssign(gs, st)
 		}
-		fr.ghostAssign(gs, st)
+	}
+	if cut && fr.depth == 0 {
+		// forget: obligations of the code dominated by this point see the requires, the declarations and the facts just proved
+		rec := &cutRec{block: vc.curBlock, from: vc.entryLen, to: len(vc.cmds), facts: map[int]string{}, keep: map[string]bool{}, soft: soft}
+		for _, l := range keep {
+			rec.keep[l] = true
+		}
+		vc.cuts = append(vc.cuts, rec)
+		for i, t := range facts {
+			n0 := len(vc.cmds)
+			vc.assume(reach, t)
+			for j := n0; j < len(vc.cmds); j++ {
+				rec.facts[j] = labels[i]
+			}
+		}
 	}
 }
 
 // ghostAssert: an intermediate assertion of the contract, proved where it stands and then assumed.
-func (fr *Frame) ghostAssert(gs *GhostStmt, st *State, reach *Term) {
+func (fr *Frame) ghostAssert(gs *GhostStmt, st *State, reach *Term, assumeNow bool) *Term {
 	vc := fr.vc
 	sc := fr.baseScope(st)
 	if len(fr.ghostResults) == 1 {
@@ -375,10 +407,13 @@ func (fr *Frame) ghostAssert(gs *GhostStmt, st *State, reach *Term) {
 	t, err := sc.compileBool(gs.Expr)
 	if err != nil {
 		vc.Errors = append(vc.Errors, fmt.Sprintf("assert %s: %v", gs.Src, err))
-		return
+		return nil
 	}
 	vc.oblige("assert", clauseLabel(gs.Assert, 0), reach, t, fr.fn.Pos(), gs.Assert.Src, gs.Assert.Props, "")
-	vc.assume(reach, t)
+	if assumeNow {
+		vc.assume(reach, t)
+	}
+	return t
 }
 
 func (fr *Frame) ghostAssign(gs *GhostStmt, st *State) {
